@@ -3,6 +3,7 @@ package cert
 import (
 	"container/list"
 	"crypto/sha256"
+	"errors"
 	"maps"
 	"slices"
 	"strings"
@@ -11,6 +12,8 @@ import (
 	"github.com/relab/hotstuff"
 	"github.com/relab/hotstuff/security/crypto"
 )
+
+var errNilSignature = errors.New("cannot verify a nil signature")
 
 type Cache struct {
 	impl        crypto.Base
@@ -68,6 +71,9 @@ func (cache *Cache) Sign(message []byte) (sig hotstuff.QuorumSignature, err erro
 
 // Verify verifies the given quorum signature against the message.
 func (cache *Cache) Verify(signature hotstuff.QuorumSignature, message []byte) error {
+	if signature == nil {
+		return errNilSignature
+	}
 	var key strings.Builder
 	hash := sha256.Sum256(message)
 	_, _ = key.Write(hash[:])
@@ -87,6 +93,9 @@ func (cache *Cache) Verify(signature hotstuff.QuorumSignature, message []byte) e
 
 // BatchVerify verifies the given quorum signature against the batch of messages.
 func (cache *Cache) BatchVerify(signature hotstuff.QuorumSignature, batch map[hotstuff.ID][]byte) error {
+	if signature == nil {
+		return errNilSignature
+	}
 	// sort the list of ids from the batch map
 	ids := slices.Sorted(maps.Keys(batch))
 	var hash hotstuff.Hash
